@@ -92,6 +92,86 @@ Eigen::Matrix<S, Eigen::Dynamic, Eigen::Dynamic> rand_spd(vf::Rng& r, int n, dou
     return A;
 }
 
+
+// Presentations of one and the same matrix (the quantifier of C11 names "plain objects, blocks, maps or expressions"): fn(ref, name) is called with an
+// Eigen::Ref bound in place to a block of a larger matrix, to a Map with an outer stride, to a contiguous Map, and to an expression (the Ref then owns a
+// temporary). The surroundings of the block / the padding of the strided map hold the value 7, so a wrapper that addresses the data with the wrong
+// leading dimension computes with numbers that are not in the matrix.
+template <class S, int Flags, class Fn>
+void with_presentations(const Eigen::Matrix<S, Eigen::Dynamic, Eigen::Dynamic, Flags>& P, Fn fn)
+{
+    using PM = Eigen::Matrix<S, Eigen::Dynamic, Eigen::Dynamic, Flags>;
+    const Eigen::Index n = P.rows(), m = P.cols();
+    {
+        PM big = PM::Constant(n + 3, m + 2, S(7));
+        big.block(2, 1, n, m) = P;
+        Eigen::Ref<const PM> ref(big.block(2, 1, n, m));
+        fn(ref, "block");
+    }
+    {
+        const bool rowmajor = (Flags & Eigen::RowMajorBit) != 0;
+        const Eigen::Index inner = rowmajor ? m : n, outer = rowmajor ? n : m, os = inner + 5;
+        std::vector<S> buf((size_t) (os * outer + 3), S(7));
+        Eigen::Map<PM, 0, Eigen::OuterStride<>> mp(buf.data() + 3, n, m, Eigen::OuterStride<>(os));
+        mp = P;
+        Eigen::Ref<const PM> ref(mp);
+        fn(ref, "strided-map");
+    }
+    {
+        std::vector<S> buf((size_t) (n * m) + 1);
+        Eigen::Map<PM> mp(buf.data(), n, m);
+        mp = P;
+        Eigen::Ref<const PM> ref(mp);
+        fn(ref, "map");
+    }
+    {
+        const PM Z = PM::Zero(n, m);
+        Eigen::Ref<const PM> ref(P + Z);
+        fn(ref, "expression");
+    }
+}
+// sparse: uncompressed storage (free slots after every inner vector), a Map of the compressed arrays, an inner panel of a wider matrix, an expression
+template <class S, int Flags, class SI, class Fn>
+void with_presentations(const Eigen::SparseMatrix<S, Flags, SI>& P, Fn fn)
+{
+    using SM = Eigen::SparseMatrix<S, Flags, SI>;
+    const Eigen::Index n = P.rows(), m = P.cols();
+    {
+        SM U = P;
+        U.reserve(Eigen::Matrix<SI, Eigen::Dynamic, 1>::Constant(U.outerSize(), SI(2)));
+        Eigen::Ref<const SM> ref(U);
+        fn(ref, U.isCompressed() ? "compressed-copy" : "uncompressed");
+    }
+    {
+        Eigen::Map<const SM> mp(n, m, P.nonZeros(), P.outerIndexPtr(), P.innerIndexPtr(), P.valuePtr());
+        Eigen::Ref<const SM> ref(mp);
+        fn(ref, "map");
+    }
+    {
+        const bool rowmajor = (Flags & Eigen::RowMajorBit) != 0;
+        std::vector<Eigen::Triplet<S, SI>> tr;
+        for (Eigen::Index k = 0; k < P.outerSize(); k++)
+            for (typename SM::InnerIterator it(P, k); it; ++it)
+                tr.emplace_back((SI) (it.row() + (rowmajor ? 2 : 0)), (SI) (it.col() + (rowmajor ? 0 : 2)), it.value());
+        const Eigen::Index inner = rowmajor ? m : n;
+        for (Eigen::Index i = 0; i < inner; i++)
+        {
+            // the outer vectors around the panel are full of 7s
+            for (Eigen::Index o : {Eigen::Index(0), Eigen::Index(1), P.outerSize() + 2})
+                tr.emplace_back((SI) (rowmajor ? o : i), (SI) (rowmajor ? i : o), S(7));
+        }
+        SM W(rowmajor ? n + 3 : n, rowmajor ? m : m + 3);
+        W.setFromTriplets(tr.begin(), tr.end());
+        W.makeCompressed();
+        if (rowmajor) { Eigen::Ref<const SM> ref(W.middleRows(2, n)); fn(ref, "inner-panel"); }
+        else { Eigen::Ref<const SM> ref(W.middleCols(2, m)); fn(ref, "inner-panel"); }
+    }
+    {
+        Eigen::Ref<const SM> ref(P * S(1));
+        fn(ref, "expression");
+    }
+}
+
 template <class V> std::vector<unsigned char> bytes_of(const V& v)
 {
     const unsigned char* p = (const unsigned char*) v.data();
